@@ -3,6 +3,7 @@ import ast
 from pyvc.util import native_file
 
 PROPERTY = 'C05'
+UNITS = ['C05', 'C03']        # Grammar.compile#own-options (C03's unit) carries 'fresh instances' for the in-place priority handling
 TRUSTED = [
     "sorted(key): a permutation ordered by the key; set iteration order arbitrary (ties in a plain SymbolNode are therefore unordered: determinism only for ordered_sets=True)",
     "bellman lemma (local equations => the first-child derivation attains the maximum over all derivations below a node): pencil proof in DESIGN.md, not machine checked",
